@@ -147,3 +147,13 @@ Definition orig_bl_boot_status (m : mgr) (d : dev) : dev * res Boot.blstatus :=
           end
       end
   end.
+
+Definition orig_cancel (m : mgr) (d : dev) : dev * res unit :=
+  match load_headers m d with
+  | (d1, None) => (d1, RErr (last_err d1))
+  | (d1, Some hs) =>
+      match ordered_idx (m_slots m) hs with
+      | RPanic => (d1, RPanic) | RErr e => (d1, RErr e)
+      | ROk idxs => cancel_ordered m (map (fun i => (i, nth i hs None)) idxs) d1
+      end
+  end.
